@@ -77,63 +77,45 @@ func MatchWildcard(text, pattern, delimiter string) bool {
 	return doWildcardMatch(text, pattern, delimiter, 0, 0)
 }
 
-// doWildcardMatch performs recursive wildcard matching
+// doWildcardMatch reports whether pattern[patternPos:] matches text[textPos:].
+//
+// It fills one row of booleans per pattern character, from the end of the pattern backwards:
+// row[j] tells whether the pattern suffix considered so far matches text[j:]. This takes
+// (len(pattern)+1) * (len(text)+1) steps, where backtracking over every way to split the text
+// between the wildcards takes exponentially many on patterns such as "*a*a*a*b".
 func doWildcardMatch(text, pattern, delimiter string, textPos, patternPos int) bool {
-	for patternPos < len(pattern) {
-		switch pattern[patternPos] {
+	n := len(text)
+	if textPos > n {
+		textPos = n
+	}
+
+	// Empty pattern suffix: matches only the empty text suffix
+	row := make([]bool, n+1)
+	row[n] = true
+
+	for i := len(pattern) - 1; i >= patternPos; i-- {
+		next := row
+		row = make([]bool, n+1)
+		switch pattern[i] {
 		case '*':
 			// * matches zero or more characters
-			patternPos++
-			if patternPos >= len(pattern) {
-				return true // * at end matches everything
+			row[n] = next[n]
+			for j := n - 1; j >= 0; j-- {
+				row[j] = next[j] || row[j+1]
 			}
-
-			// Try matching * with zero characters first
-			if doWildcardMatch(text, pattern, delimiter, textPos, patternPos) {
-				return true
-			}
-
-			// Try matching * with one or more characters
-			for textPos < len(text) {
-				textPos++
-				if doWildcardMatch(text, pattern, delimiter, textPos, patternPos) {
-					return true
-				}
-			}
-			return false
-
 		case '%':
-			// % matches zero or more characters but not hierarchy delimiter
-			patternPos++
-			if patternPos >= len(pattern) {
-				// % at end - check if remaining text contains delimiter
-				return !strings.Contains(text[textPos:], delimiter)
+			// % matches zero or more characters but not the hierarchy delimiter
+			row[n] = next[n]
+			for j := n - 1; j >= 0; j-- {
+				row[j] = next[j] || (!strings.HasPrefix(text[j:], delimiter) && row[j+1])
 			}
-
-			// Try matching % with zero characters first
-			if doWildcardMatch(text, pattern, delimiter, textPos, patternPos) {
-				return true
-			}
-
-			// Try matching % with one or more characters (but not delimiter)
-			for textPos < len(text) && !strings.HasPrefix(text[textPos:], delimiter) {
-				textPos++
-				if doWildcardMatch(text, pattern, delimiter, textPos, patternPos) {
-					return true
-				}
-			}
-			return false
-
 		default:
 			// Regular character - must match exactly
-			if textPos >= len(text) || text[textPos] != pattern[patternPos] {
-				return false
+			for j := 0; j < n; j++ {
+				row[j] = text[j] == pattern[i] && next[j+1]
 			}
-			textPos++
-			patternPos++
 		}
 	}
 
-	// Pattern consumed - text should also be consumed
-	return textPos >= len(text)
+	return row[textPos]
 }
